@@ -2,7 +2,9 @@ package main
 
 import (
 	"fmt"
+	"os"
 	"sort"
+	"strconv"
 	"strings"
 	"sync"
 	"time"
@@ -51,6 +53,7 @@ type harnessResult struct {
 	Uncertain   int
 	Assumes     int
 	Truncated   bool
+	WallCap     bool
 	EngineErrs  []string
 	Budget      []string
 	GlobalWrites map[string]bool
@@ -98,6 +101,21 @@ type exploreCfg struct {
 	solverTimeoutMs int
 }
 
+// maxWall caps the exploration of one property run (all its harnesses share
+// the pool): 25 minutes quick, 5 hours thorough, or $VERIF_MAX_WALL seconds.
+// Hitting the cap makes the run inconclusive, never a pass.
+func (c exploreCfg) maxWall() time.Duration {
+	if v := os.Getenv("VERIF_MAX_WALL"); v != "" {
+		if n, err := strconv.Atoi(v); err == nil && n > 0 {
+			return time.Duration(n) * time.Second
+		}
+	}
+	if c.tier == 1 {
+		return 5 * time.Hour
+	}
+	return 25 * time.Minute
+}
+
 // explore runs all harness specs to completion on the pool.
 func explore(p *pool, specs []HarnessSpec, cfg exploreCfg) map[string]*harnessResult {
 	results := map[string]*harnessResult{}
@@ -143,6 +161,20 @@ func explore(p *pool, specs []HarnessSpec, cfg exploreCfg) map[string]*harnessRe
 				}
 				if started[j.spec.Func] >= maxp {
 					hr.Truncated = true
+					mu.Unlock()
+					continue
+				}
+				if len(hr.Violations) >= 64 {
+					// enough candidate violations to report: a change that breaks the
+					// property can also blow up the path count (e.g. reading no longer
+					// stops), and the verdict does not need the remaining paths
+					hr.Truncated = true
+					mu.Unlock()
+					continue
+				}
+				if time.Since(t0) > cfg.maxWall() {
+					hr.Truncated = true
+					hr.WallCap = true
 					mu.Unlock()
 					continue
 				}
